@@ -129,6 +129,11 @@ def _check_objective(repo, res, f):
               "cost does and its gradient is the gradient of that objective" % n, "; ".join(problems[:2]), node=f.node)
 
 
+def _vec(v):
+    """a start vector as a plain list, whether the routine kept it as a list or made an array of it"""
+    return v.tolist() if isinstance(v, NumArr) else (list(v) if isinstance(v, (list, tuple)) else v)
+
+
 def check(repo, res, tier):
     res.rule("R-LAYOUT", "box_bounds row i = (lb[i], ub[i])")
     res.rule("R-WIRE", "minimize receives cost, sensitivity of the same object, the caller's start, the bounds, a bounded method")
@@ -174,7 +179,7 @@ def check(repo, res, tier):
     res.check(rows == want, "R-LAYOUT", f, "box-bounds", "bounds row i is (lb[i], ub[i])",
               "for lb=%s ub=%s the bounds handed to the optimiser are %s: lower and upper limits are paired with the wrong variables" % (lb, ub, rows), node=f.node)
     _check_objective(repo, res, f)
-    res.check(call.get("x0") == x, "R-WIRE", f, "start", "the optimiser starts at the caller's x", "x0=%r" % (call.get("x0"),), node=f.node)
+    res.check(_vec(call.get("x0")) == list(x), "R-WIRE", f, "start", "the optimiser starts at the caller's x", "x0=%r" % (call.get("x0"),), node=f.node)
     res.check(call.get("method") in ("L-BFGS-B",), "R-WIRE", f, "method(box)", "box-constrained fit uses L-BFGS-B", "method=%r for a box-constrained fit" % (call.get("method"),), node=f.node)
     res.check(out == Tok("xhat"), "R-WIRE", f, "returns-x", "fit returns the optimiser's x", "fit returns %r" % (out,), node=f.node)
     kind2, out2, rec2 = run({"lb": list(lb), "ub": list(ub), "full_output": True})
@@ -206,7 +211,7 @@ def check(repo, res, tier):
             res.undecided("R-LAYOUT", f, tag, "outside the modelled subset: %s" % o)
             continue
         wantb = [[lb[i] if "lb" in a else None, ub[i] if "ub" in a else None] for i in range(n)]
-        ok = k == "return" and len(r) == 1 and _rows(r[0].get("bounds")) == wantb and r[0].get("x0") == x
+        ok = k == "return" and len(r) == 1 and _rows(r[0].get("bounds")) == wantb and _vec(r[0].get("x0")) == list(x)
         res.check(ok, "R-LAYOUT", f, tag, "rows (lb[i] or None, ub[i] or None); start unchanged", "%s -> bounds %s, start %s" % (tag, _rows(r[0].get("bounds")) if r else k, r[0].get("x0") if r else None), node=f.node)
     # concrete bounds, including the values a guard is most likely to mishandle: 0, negative, infinite
     inf = float("inf")
